@@ -38,7 +38,8 @@ class NamingScenario(StateScenario):
                  "list", "dict", "challenge", "any", "ipv4net"]
         return schema.GenCfg(rng, kinds=[k for k in kinds if rng.random() < 0.7] or ["int", "bool"], depth=rng.choice([0, 1, 2, 3]),
                              width=rng.randint(2, 6), p_validator=0.0, p_required=0.0, filename_fs=False, virtual=rng.random() < 0.3,
-                             p_configtype=rng.choice([0.0, 0.15]), p_list_schema=rng.choice([0.0, 0.15]))
+                             p_configtype=rng.choice([0.0, 0.15]), p_list_schema=rng.choice([0.0, 0.15]),
+                             p_dynamic=rng.choice([0.0, 0.2, 0.4]), p_empty_section=rng.choice([0.0, 0.3, 0.5]))
 
     def weights(self, rng):
         return {"set": 4, "load_tree": 1, "lop": 1, "reset": 1, "names": 2, "dotted_set": 3, "cmdline": 6, "parser": 1}
